@@ -849,6 +849,7 @@ def run(ctx):
 
 
 def replay(ctx, rp):
+    common.import_eups()          # before any scratch stack puts EUPS_PATH into the environment
     c = rp["input"]
     before = (len(ctx.failures), len(ctx.disagreements))
     evaluate(ctx, [c], workers=1)
